@@ -5,7 +5,7 @@ package main
 //	hist <keepalive>[:<gun options>] <sc> <max-idle-conns-per-host> <answer-bytes> <instances> <nev> {B<k>|E<k>|W<ms>}*nev
 //
 // W<ms> (round 7): nothing happens for <ms> milliseconds — between two requests of an instance or while requests are in flight.
-// With the gun option T<ms> (dial.timeout) shorter than the waits, and the gun types http / connect (option k / K: through a
+// With the gun option T<ms> (dial.timeout, 1 s) shorter than the waits, and the gun types http / connect (option k / K: through a
 // tunnel front), this is the timed history of Model/HttpTunnel.v: a connection must outlive the dial timeout.
 //
 // The gun configuration (disable-keep-alives, max-idle-conns-per-host, shared-client block sc = n | d<N> | e<N>) goes through
@@ -338,15 +338,16 @@ func genHist(r *vh.Rand) string {
 		addOpt(r.Pick([]string{"k", "k", "K"}))
 	}
 	if r.Chance(1, 8) {
-		// timed history: a short dial timeout and 1-2 waits longer than it, anywhere in the history (requests in flight or not)
-		t := r.PickInt([]int{250, 300})
+		// timed history: dial timeout 1 s (nothing shorter: under load a loop-back dial may take a few hundred ms) and 1-2
+		// waits longer than it, anywhere in the history but after the first event (requests in flight or not)
+		t := 1000
 		addOpt(fmt.Sprintf("T%d", t))
 		for w := r.Range(1, 2); w > 0; w-- {
-			at := r.Range(1, len(evs))
-			evs = append(evs[:at], append([]string{fmt.Sprintf("W%d", t+r.PickInt([]int{200, 250}))}, evs[at:]...)...)
+			at := r.Range(1, len(evs)-1)
+			evs = append(evs[:at], append([]string{fmt.Sprintf("W%d", t+r.PickInt([]int{200, 300}))}, evs[at:]...)...)
 		}
 	} else if r.Chance(1, 6) {
-		addOpt(fmt.Sprintf("T%d", r.PickInt([]int{300, 1000})))
+		addOpt(fmt.Sprintf("T%d", r.PickInt([]int{1000, 2000})))
 	}
 	if o != "" {
 		kaf += ":" + o
